@@ -296,6 +296,9 @@ def c11_3(ctx):
     ctx.floor(R, "integer impl pairs", n, 12)
     c11_3_sign_tests(ctx)
     c11_4_bigint(ctx)
+    # amounts read by the trusted scans go through the same canonical sanitiser (parse_amount) as full validation (shared with C09.2)
+    from . import c09
+    c09.c09_2(ctx, R="C11.2")
     # encode_number / decode_number literal inventory (pad bytes by sign, sign mask, padding cap)
     for fn_, want in (("clvm_traits::int_encoding::encode_number", {0xFF, 0x00, 0x80}),
                       ("clvm_traits::int_encoding::decode_number", {0xFF, 0x00, 0x80, 64})):
